@@ -315,29 +315,58 @@ def r116(chk, m):
                    'verb.digest of %r: %s' % (body, sorted(got)), chk.where(dg))
 
 
+def box_discipline(m, pf, cls):
+    """The parse method `pf` of a box class interpreted on a math-shift tracker that already holds an enclosing box's sentinel and
+    an open formula: (tracker while the argument is parsed, tracker afterwards) per path, as tuples of 'None' / 'formula'."""
+    from ..util import SelfHooks
+    key = '__cls:plasTeX.Base.TeX.Primitives.MathShift.inEnv'
+    need(m.cls('plasTeX.Base.TeX.Primitives', 'MathShift') is not None and 'inEnv' in m.cls('plasTeX.Base.TeX.Primitives', 'MathShift').assigns,
+         'MathShift.inEnv (the math-shift tracker) was not found')
+    show = lambda lst: tuple('None' if x is None else getattr(x, 'label', repr(x)) for x in lst) if isinstance(lst, list) else ('TOP',)
+
+    class BH(SelfHooks):
+        def lookup(self, interp, name, state):
+            return None
+
+        def should_inline(self, fname, node, info):
+            return not (info is not None and info.name == 'parse' and info is not pf)
+
+        def call(self, interp, node, fname, args, kwargs, state):
+            if fname.endswith('.parse'):
+                state.env['__during'] = state.env.get('__during', ()) + (show(state.env.get(key)),)
+                return A.Sym('parsed-arguments', truthy=True)
+            return None
+    generic = m.find_method(m.cls('plasTeX', 'Macro'), 'parse')
+    if pf is generic and not any(isinstance(x, ast.Attribute) and x.attr == 'inEnv' for x in ast.walk(pf.node)):
+        # the argument parser every macro shares: it never mentions the tracker, so the box has no sentinel of its own
+        return {('return', (('None', 'formula'),), ('None', 'formula'))}, 0
+    h = BH(m, cls)
+    h.keep = lambda ev: False
+    it = A.Interp(model=m, scope=pf, hooks=h, max_iter=4, exc_edges=False, inline=4, heap=True, precise_exc=True)
+    me = A.Obj('box', {'attributes': A.Obj('attributes', {})}, cls=cls)
+    outs = it.run_function(pf, env={'self': me, 'tex': A.Sym('tex', truthy=True), key: [None, A.Obj('formula', {})]})
+    res = set()
+    for kind, s2, v in outs:
+        res.add((kind if kind != 'raise' else 'raise %s' % v, s2.env.get('__during', ()), show(s2.env.get(key))))
+    if it.unknown_branches or it.imprecise:
+        res.add(('TOP: %s' % (it.unknown_branches + it.imprecise)[0], (), ()))
+    return res, len(outs)
+
+
+BOX_WANT = {('return', (('None', 'formula', 'None'),), ('None', 'formula'))}
+
+
 def r117(chk, m):
-    R = chk.rule('R11.7', 'the math-shift tracker is a stack: a box argument pushes its own sentinel before parsing and pops it '
-                 '(last in, first out) afterwards', 1)
+    R = chk.rule('R11.7', 'the math-shift tracker is a stack, interpreted: BoxCommand.parse run on a tracker that holds an enclosing box\'s '
+                 'sentinel and an open formula has its own sentinel on top while the argument is parsed and leaves the tracker as it found it', 1)
     fn = m.func('plasTeX.Base.TeX.Primitives', 'BoxCommand.parse')
     chk.analysed(fn)
-
-    def tr(n, v):
-        if isinstance(n, ast.Call):
-            nm = M.call_name(n)
-            if nm.endswith('inEnv.append'):
-                return v + ('append(%s)' % text(n.args[0]),)
-            if nm.endswith('inEnv.pop'):
-                return v + ('pop(%s)' % ','.join(text(a) for a in n.args),)
-            if re.search(r'inEnv\.(remove|clear|insert|__delitem__)$', nm):
-                return v + (nm.split('.')[-1],)
-            if nm == 'Command.parse':
-                return v + ('parse',)
-        return v
-    normal, raised = flow.function_exits(fn.node, (), tr)
-    chk.verdict(R, 'BoxCommand.parse: append(None) ... parse ... pop()', normal == {('append(None)', 'parse', 'pop()')},
-                'BoxCommand.parse manipulates MathShift.inEnv as %s; it must push its sentinel, parse, and pop the last entry - '
-                'removing by value takes the sentinel of an enclosing box, so the $ that closes a formula inside nested boxes opens a new one'
-                % sorted(normal), chk.where(fn))
+    got, n = box_discipline(m, fn, fn.cls)
+    chk.paths += n
+    chk.decide(R, 'BoxCommand.parse: append(None) ... parse ... pop()', got, BOX_WANT,
+               'BoxCommand.parse run on the tracker [None, formula] gives (outcome, tracker during the argument, tracker afterwards) = %s; it must push '
+               'its sentinel, parse, and pop the last entry - removing by value takes the sentinel of an enclosing box, so the $ that closes a '
+               'formula inside nested boxes opens a new one' % sorted(got), chk.where(fn))
     # the text boxes of LaTeX (confirmed on the reference tree): each parses its argument under its own sentinel and in text mode
     R2 = chk.rule('R11.7b', 'every text box that can stand inside a formula (\\mbox, \\hbox, \\vbox and the \\text.. font commands) parses its '
                   'argument under its own math-shift sentinel and is not in math mode, so that a $ inside the box opens a formula '
@@ -352,13 +381,13 @@ def r117(chk, m):
             need(pf is not None, '%s.parse not resolved' % c.fullname)
             if pf.fullname not in verdicts:
                 chk.analysed(pf)
-                nrm, _ = flow.function_exits(pf.node, (), tr)
-                verdicts[pf.fullname] = nrm
-            nrm = verdicts[pf.fullname]
+                verdicts[pf.fullname], n = box_discipline(m, pf, c)
+                chk.paths += n
+            got = verdicts[pf.fullname]
             mm = m.class_const(c, 'mathMode', None)
-            chk.verdict(R2, 'text box \\%s' % name, nrm == {('append(None)', 'parse', 'pop()')} and mm is False,
-                        '\\%s parses its argument through %s (math-shift tracker: %s, mathMode %r): a $ inside the box is taken as the end of '
-                        'the enclosing formula' % (name, pf.fullname, sorted(nrm), mm), chk.where(c))
+            chk.decide(R2, 'text box \\%s' % name, {g + (repr(mm),) for g in got}, {g + ('False',) for g in BOX_WANT},
+                       '\\%s parses its argument through %s (outcome, math-shift tracker during and after: %s; mathMode %r): a $ inside the box is taken '
+                       'as the end of the enclosing formula' % (name, pf.fullname, sorted(got), mm), chk.where(c))
 
 
 TEXT_BOXES = ('mbox', 'hbox', 'vbox', 'textmd', 'textbf', 'textrm', 'textsf', 'texttt', 'textup', 'textit', 'textsl', 'textsc', 'textnormal')
@@ -419,7 +448,7 @@ def r118(chk, m):
                 continue
         chk.decide(R, 'Macro.parse: ' + label, got, {want}, 'Macro.parse with %d argument(s): %s; expected %s' % (nargs, sorted(got), want), chk.where(parse))
     # (b) sourceChildren
-    sc = m.module('plasTeX').functions.get('sourceChildren')
+    sc = m.func_or_none('plasTeX', 'sourceChildren')
     need(sc is not None, 'sourceChildren not found')
     chk.analysed(sc)
     for label, par, want in (('children in order', True, 'ABC'), ('paragraph level skipped', False, 'abcd')):
